@@ -353,8 +353,8 @@ def run(tier: str, only=None) -> int:
         b_stmt = {"ps": 0, "pl": 1, "free": 2}
         cap = 400000
     else:
-        b_sync = {"ps": 3, "free": 3}
-        b_stmt = {"ps": 1, "pl": 2, "free": 2}
+        b_sync = {"ps": 2, "free": 3}
+        b_stmt = {"ps": 0, "pl": 2, "free": 1}
         cap = 4000000
     cfgs = pool_configs(tier)
     for i, P in enumerate(cfgs):
@@ -362,8 +362,10 @@ def run(tier: str, only=None) -> int:
         if only and only not in name:
             continue
         rep.sample({"sub": name, "params": P})
-        harness.run_exploration(rep, PID, name + "/sync", PoolScn, P, b_sync, max_execs=cap)
-        harness.run_exploration(rep, PID, name + "/stmt", PoolScn, P, b_stmt, stmt=stmt, max_execs=cap)
+        big = sum(len(s) for s in P["spawners"]) >= 3 or (len(P["spawners"]) >= 2 and P.get("shutdown"))
+        bs, bt = ({"ps": 2, "free": 2}, {"ps": 0, "pl": 1, "free": 2}) if big and tier != "quick" else (b_sync, b_stmt)
+        harness.run_exploration(rep, PID, name + "/sync", PoolScn, P, bs, max_execs=cap)
+        harness.run_exploration(rep, PID, name + "/stmt", PoolScn, P, bt, stmt=stmt, max_execs=cap)
     # environment fault: the interpreter refuses to start a thread for a task (one fault per execution)
     for primary in (False, True):
         for backend in ("thread", "main_thread_only"):
